@@ -776,6 +776,12 @@ impl IdlArcSqliteWriteTransaction<'_> {
                 // Update allids since we cleared them and need to reset it in the cache.
                 std::mem::swap(self.allids.deref_mut(), &mut ids);
             })
+            // The raw entries carry their own ids (restore), so the cached max id has to
+            // follow them or the next created entry reuses the id of a restored one.
+            .and_then(|()| self.db.get_id2entry_max_id())
+            .map(|mid| {
+                *self.maxid = mid;
+            })
     }
 
     pub fn delete_identry<I>(&mut self, mut idl: I) -> Result<(), OperationError>
